@@ -25,5 +25,14 @@ Definition check_gen (c : case) : bool :=
       nl_eqb r obs && match rest with [] => true | _ => false end
   | CSelectQ arr rank draws obs => select_ok_gen qx_ops (map QF arr) rank draws (QF obs)
   | CSelectF arr rank draws obs => select_ok_gen f_ops arr rank draws obs
+  (* uniform_reference_points: bit for bit in binary64, within 1e-12 of the exact rationals when scaled *)
+  | CRefF nobj p sc obs =>
+      list_eqb fl_eqb (gen_uniform_reference_points f_ops (Z.of_nat nobj) (Z.of_nat p) sc) obs
+  | CRefQ nobj p s obs =>
+      let m := gen_uniform_reference_points q_ops (Z.of_nat nobj) (Z.of_nat p) (Some s) in
+      Nat.eqb (length m) (length obs)
+      && forallb (fun rr => Nat.eqb (length (fst rr)) (length (snd rr))
+                            && forallb (fun xy => q_close (1 # 1000000000000) (fst xy) (snd xy)) (zip (fst rr) (snd rr)))
+                 (zip m obs)
   | _ => true
   end.
